@@ -265,7 +265,7 @@ def handleCase (routes errs req named : String) : String :=
 /-! op `he`: a Caddyfile site `error <S>` + `handle_errors` blocks, adapted and asked for path P
 
     he <S> <P> <blocks>      blocks = B (A hexarg^A D (PATH ST)^D)^B     PATH 0 = no matcher, k = path k-1
-  answer  `he err` (adapter refuses) | `he unloadable` | `he s=<status> r=<route;…>` with route =
+  answer  `he err` (adapter refuses) | `he s=<status> r=<route;…>` with route =
           `E<hex of the expression>` | `P<path>` | `-` (no matcher)                                -/
 
 def pathLen : Nat → Nat
@@ -319,7 +319,6 @@ def handleHE (sF pF blocksF : String) : String :=
     if !(400 ≤ s && s ≤ 599) || p ≥ 6 || !blocksValid bs then "bad-op" else
     match adapt bs, parseBlocks bs with
     | .err, _ => "he err"
-    | .unloadable, _ => "he unloadable"
     | .routes errs, some ps =>
       let sorted := C16.insertionSort (fun x y => blockLess x.1 y.1)
         (ps.map fun q => (blockRoutes q.1 q.2, q.2.map (dirDesc q.1)))
@@ -396,10 +395,6 @@ def witnessLines : List String :=
   [ encCase wRewriteRoutes true wRewriteErrs wReq,
     encCase wStaleRoutes true wStaleErrs wReq,
     encCase (wOrderRoutes wSetA) false [] wReq,
-    encCase (wOrderRoutes wSetB) false [] wReq,
-    -- AdaptProps.handle_errors_inner_matcher_dropped: `handle_errors 404 { respond /a 201 }`, 404 on /b
-    "he 404 3 1,1,343034,1,2,201",
-    -- AdaptProps.adapter_accepts_unloadable_plus_code: `handle_errors +40 { respond 201 }`
-    "he 404 1 1,1,2b3430,1,0,201" ]
+    encCase (wOrderRoutes wSetB) false [] wReq ]
 
 end CaddyModel.C05
